@@ -13,9 +13,9 @@ from lib import core, gendoc as G, oracle_html, drv as D
 ID = 'C03'
 EXT = D.EXT_CLI & ~D.EXT['SMART']
 SAFE = set(['emph', 'strong', 'code', 'link', 'image', 'esc', 'entity', 'break', 'quote', 'list', 'codeblock', 'rule', 'heading', 'table', 'deflist', 'footnote', 'math', 'supsub', 'autolink',
-            'figure', 'smart', 'adjacent', 'tight-children', 'heading-inlines', 'colspan', 'nested-indented'])
+            'figure', 'smart', 'adjacent', 'tight-children', 'heading-inlines', 'colspan', 'nested-indented', 'softbreak', 'deep-items'])
 # what plain Markdown (compatibility mode) knows
-COMPAT = set(['emph', 'strong', 'code', 'link', 'image', 'esc', 'entity', 'break', 'quote', 'list', 'codeblock', 'rule', 'heading', 'autolink', 'figure', 'indented-only', 'adjacent', 'tight-children', 'heading-inlines', 'nested-indented'])
+COMPAT = set(['emph', 'strong', 'code', 'link', 'image', 'esc', 'entity', 'break', 'quote', 'list', 'codeblock', 'rule', 'heading', 'autolink', 'figure', 'indented-only', 'adjacent', 'tight-children', 'heading-inlines', 'nested-indented', 'softbreak', 'deep-items'])
 # mode name -> (extensions, smart, compat, features)
 MODES = {
     'mmd': (EXT, False, False, SAFE),
